@@ -34,11 +34,12 @@ def as_const_classes(ctx: Ctx) -> dict[str, ast.AST]:
 COMPUTING_CALLS = ("f(", "func(", "_cmpop_to_func[", "environment.getitem(", "environment.getattr(")
 
 
-def check(ctx: Ctx) -> str:
-    ctx.use("nodes", "compiler", "optimizer")
+def r0_fold_failures(ctx: Ctx, rid: str = "R0") -> None:
+    """Shared with C02: folding must never turn a run-time error into a compile-time one."""
+    ctx.use("nodes", "optimizer")
     repo = ctx.repo
     acs = as_const_classes(ctx)
-    ctx.rule("R0", "fold failures are deferred: every as_const that applies an operator / filter / test / accessor does so inside `try: ... except Exception: raise Impossible()`")
+    ctx.rule(rid, "fold failures are deferred: every as_const that applies an operator / filter / test / accessor does so inside `try: ... except Exception: raise Impossible()`")
     ctx.floor("classes defining as_const", len(acs), 22)
     n = 0
     for cname, fn in sorted(acs.items()):
@@ -70,6 +71,13 @@ def check(ctx: Ctx) -> str:
               "the optimizer must fold only Expr nodes, through Const.from_untrusted, and keep the node on Impossible", og.loc())
     fu = repo.func("nodes:Const.from_untrusted")
     ctx.check("has_safe_repr(value)" in ast.unparse(fu.node) and any(astq.raise_type(r).endswith("Impossible") for r in astq.raises(fu.node)), "from_untrusted", "nodes:Const.from_untrusted", "safe repr gate", "Const.from_untrusted must refuse values without a safe repr", fu.loc())
+
+
+def check(ctx: Ctx) -> str:
+    ctx.use("nodes", "compiler", "optimizer")
+    repo = ctx.repo
+    acs = as_const_classes(ctx)
+    r0_fold_failures(ctx)
 
     ctx.rule("R1", "eval-context dependent nodes refuse to fold under volatile, unconditionally, and branch on autoescape exactly as their emission does")
     # nodes whose emitted code consults context.eval_ctx at run time
@@ -127,8 +135,16 @@ def check(ctx: Ctx) -> str:
               octc.loc(), detail={"escape_guard": "frame.eval_ctx.autoescape (compile time)", "volatile_guard": None})
     nat = repo.func("nativetypes:NativeCodeGenerator._output_child_to_const")
     ctx.check("has_safe_repr(const)" in ast.unparse(nat.node), "native:safe-repr", "nativetypes:NativeCodeGenerator._output_child_to_const", "safe repr gate", "native constant output must refuse values without a safe repr", nat.loc())
+    r3_safe_repr(ctx)
+    return __doc__ or ""
 
-    ctx.rule("R3", "has_safe_repr: only literal-evaluable types; container branches recurse over every component (dict: keys and values)")
+
+def r3_safe_repr(ctx: Ctx, rid: str = "R3") -> None:
+    """Shared with C01: a value is written into the generated module with repr() only when
+    that repr is a Python literal, otherwise compile() fails with a host-language error."""
+    ctx.use("compiler")
+    repo = ctx.repo
+    ctx.rule(rid, "has_safe_repr: only literal-evaluable types; container branches recurse over every component (dict: keys and values)")
     hs = repo.func("compiler:has_safe_repr")
     branches = [n_ for n_ in hs.node.body if isinstance(n_, ast.If)]  # type: ignore[attr-defined]
     safe_atoms = {"bool", "int", "float", "complex", "range", "str", "Markup"}
@@ -170,4 +186,3 @@ def check(ctx: Ctx) -> str:
             if is_float_path and not finite_guard and any("isinstance(val, float)" in g and pol for g, pol in gts):
                 bad = True
     ctx.check(not bad, "visit_Const:float", "compiler:CodeGenerator.visit_Const", "float re-emission", "floats are re-emitted with str(): inf / nan (a folded 1e999) become the undefined names `inf` / `nan` in the generated module", vc.loc())
-    return __doc__ or ""
